@@ -69,12 +69,30 @@ vars == <<seed, env, ty, steps, rule, rules>>
 FreshNames == <<"N0", "N1", "N2", "N3", "N4", "N5", "N6", "N7", "N8", "N9", "N10", "N11", "N12">>
 Fresh(e) == FreshNames[CHOOSE i \in DOMAIN FreshNames : (\A j \in DOMAIN e : e[j].n # FreshNames[i]) /\ (\A k \in 1..(i - 1) : \E j \in DOMAIN e : e[j].n = FreshNames[k])]
 IsDeclared(e, n) == \E i \in DOMAIN e : e[i].n = n
+IsDeclaredIn(e, n) == \E i \in DOMAIN e : e[i].n = n
 IdDecl == [n |-> "Id", kind |-> "type", params |-> <<"X">>, ty |-> Param("X")]
 Res(t, add, r) == [ty |-> t, add |-> add, r |-> r]
 
 Rotate(s) == Tail(s) \o <<Head(s)>>
 EndsWith(s, suf) == Len(s) >= Len(suf) /\ SubSeq(s, Len(s) - Len(suf) + 1, Len(s)) = suf
 
+\* names referenced in a type, and the names reachable from a declaration's body (bounded by the number of declarations)
+RECURSIVE RefNames(_)
+RefNames(T) ==
+  CASE T.t = "ref"   -> {T.n}
+    [] T.t = "app"   -> {T.n} \cup UNION {RefNames(T.args[i]) : i \in DOMAIN T.args}
+    [] T.t \in {"arr", "set"} -> RefNames(T.e)
+    [] T.t = "map"   -> RefNames(T.kt) \cup RefNames(T.vt)
+    [] T.t = "tuple" -> UNION {RefNames(T.es[i]) : i \in DOMAIN T.es} \cup UNION {RefNames(T.r[i]) : i \in DOMAIN T.r}
+    [] T.t = "obj"   -> UNION {RefNames(T.ps[i].ty) : i \in DOMAIN T.ps} \cup UNION {RefNames(T.ix[i].vt) : i \in DOMAIN T.ix}
+    [] T.t \in {"union", "inter"} -> UNION {RefNames(T.ms[i]) : i \in DOMAIN T.ms}
+    [] T.t = "deco"  -> RefNames(T.a)
+    [] OTHER -> {}
+RECURSIVE ReachFrom(_, _, _)
+ReachFrom(e, S, fuel) ==
+  LET nxt == S \cup UNION {RefNames(e[i].ty) : i \in {i \in DOMAIN e : e[i].n \in S}} IN
+  IF fuel = 0 \/ nxt = S THEN S ELSE ReachFrom(e, nxt, fuel - 1)
+RecursiveName(e, n) == IsDeclaredIn(e, n) /\ n \in ReachFrom(e, RefNames(Lookup(e, n)), Len(e))
 \* rewrites applicable at the root of subterm T (e = current env)
 Local(T, e) ==
   (IF T.t = "union" /\ Len(T.ms) >= 2
@@ -99,8 +117,10 @@ Local(T, e) ==
                Res(Deco("comment", T), <<>>, "AddComment"),
                Res(App("Id", <<T>>), IF IsDeclared(e, "Id") THEN <<>> ELSE <<IdDecl>>, "WrapGenericIdentity") }
         ELSE {})
-  \cup (IF T.t = "ref" /\ T.n \notin {"R", "P", "Q", "Rx", "Px", "Qx", "ZzR", "ZzP", "ZzQ"}     \* the recursive seeds' names are not inlined
-        THEN { Res(Lookup(e, T.n), <<>>, "InlineAlias") } ELSE {})
+  \* inlining a reference to a RECURSIVE name is one unrolling of the recursion: the rule is tagged @recursive
+  \* (known deviation "unrolledRecursionDigest": hash256 of an unrolling differs from the digest of the named type)
+  \cup (IF T.t = "ref"
+        THEN { Res(Lookup(e, T.n), <<>>, IF RecursiveName(e, T.n) THEN "InlineAlias@recursive" ELSE "InlineAlias") } ELSE {})
 
 \* all single-position rewrites of T
 RECURSIVE RW(_, _)
